@@ -334,6 +334,9 @@ class Module:
         self.source = source
         self.digest = hashlib.sha256(source.encode()).hexdigest()[:16]
         tree = ast.parse(source, filename=path)
+        from .inl import inline_unknown_helpers
+
+        self.inlined_calls, self.inlined_helpers = inline_unknown_helpers(tree)
         st = _StripTypeChecking()
         cn = _Canonical()
         self.tree = ast.fix_missing_locations(cn.visit(st.visit(tree)))
